@@ -302,11 +302,11 @@ func extSeedShapesBody(x *engine.X) {
 // ---------------------------------------------------------------------------------------------------------------
 // Faults on the extension's only message. Classification (pkg/ot/extension/softspoken/rounds.go, Sender.Round2):
 //
-//   challengeResponse.x, challengeResponse.t[i]  CHECK: the sender recomputes q'_i from its own correlation rows and
-//       accepts iff q'_i == t_i + Delta_i * x in GF(2^128) for ALL i. Altering t_i breaks row i; altering x breaks
-//       every row with Delta_i = 1 (Delta is 128 random bits). -> Sender.Round2 must refuse.
-//   u[i]  CHECK INPUT: u_i enters q_i (when Delta_i = 1) and, for every i, the Fiat-Shamir transcript from which the
-//       challenge chi is derived; the response was computed for the old chi, so every row fails. -> must refuse.
+//	challengeResponse.x, challengeResponse.t[i]  CHECK: the sender recomputes q'_i from its own correlation rows and
+//	    accepts iff q'_i == t_i + Delta_i * x in GF(2^128) for ALL i. Altering t_i breaks row i; altering x breaks
+//	    every row with Delta_i = 1 (Delta is 128 random bits). -> Sender.Round2 must refuse.
+//	u[i]  CHECK INPUT: u_i enters q_i (when Delta_i = 1) and, for every i, the Fiat-Shamir transcript from which the
+//	    challenge chi is derived; the response was computed for the old chi, so every row fails. -> must refuse.
 //
 // There is no field of this message that is not an input of the consistency check.
 func extFaultBody(shapes []extShape, curves int) func(*engine.X) {
